@@ -53,6 +53,8 @@ var Kinds = []Req{
 	// a HEAD request for a static GET-only path; two requests whose handlers build the URL of one named route from
 	// their own parameter
 	{"HEAD", "/a"}, {"GET", "/bu/1"}, {"GET", "/bu/2"},
+	// a path that is not in normal form (normalised on every request)
+	{"GET", "//b/"},
 }
 
 // kept holds, per request, the Copy() of the context its handler kept beyond the request
@@ -172,14 +174,16 @@ func Build(s Shape) *rux.Router {
 		}
 	}
 	if s.CustomNF {
-		r.NotFound(mw("nf0"), func(c *rux.Context) { c.Text(404, "custom-not-found "+c.Req.URL.Path) })
+		r.NotFound(mw("nf0"), func(c *rux.Context) {
+			c.Text(404, fmt.Sprintf("custom-not-found %s params=%d%v", c.Req.URL.Path, len(c.Params), c.Params))
+		})
 	}
 	if s.CustomNA {
 		r.NotAllowed(func(c *rux.Context) {
 			al, _ := c.SafeGet(rux.CTXAllowedMethods).([]string)
 			al = append([]string(nil), al...)
 			sort.Strings(al)
-			c.Text(405, "custom-not-allowed "+strings.Join(al, ","))
+			c.Text(405, fmt.Sprintf("custom-not-allowed %s params=%d%v", strings.Join(al, ","), len(c.Params), c.Params))
 		})
 	}
 	return r
